@@ -109,7 +109,7 @@ def _unbounded_demand(src):
 
 
 def differential(ctx, jobs, srcs, kinds_bad=('DIFF', 'HALT', 'FAULT', 'ASMERROR', 'FELLOFF'), allow_stack=True,
-                 do_shrink=True, max_report=3, label='diff', must_compile=False, ife=True):
+                 do_shrink=True, max_report=3, label='diff', must_compile=False, ife=True, must_compile_prefixes=()):
     """run VM and reference machine on the jobs; record violations (shrunk) in ctx"""
     cases, rejected = compile_cases(jobs)
     res = hidlib.run_parallel(cases, chunk=64)
@@ -165,6 +165,14 @@ def differential(ctx, jobs, srcs, kinds_bad=('DIFF', 'HALT', 'FAULT', 'ASMERROR'
     for k, v in tally.items(): st[k] = st.get(k, 0) + v
     st['rejected_by_compiler'] = st.get('rejected_by_compiler', 0) + len(rejected)
     if rejected: st.setdefault('rejected_samples', rejected[:3])
+    if must_compile_prefixes and not must_compile:
+        # hand-written families are valid by construction: a rejection is a finding (or a slip in the family - never silent)
+        rejected_must = [(cid, err) for cid, err in rejected if cid.startswith(tuple(must_compile_prefixes))]
+        jm_ = {j[0]: j for j in jobs}
+        for cid, err in rejected_must[:max_report]:
+            ctx.violations.append(dict(what='%s: valid program rejected by the compiler: %s' % (label, err[:200]), kind='REJECTED',
+                                       source=jm_[cid][1], args=[a if isinstance(a, str) else a.decode('latin1') for a in jm_[cid][2]],
+                                       config=dict(w=jm_[cid][3], stack=jm_[cid][4], unchecked=jm_[cid][5])))
     if must_compile and rejected:
         # the jobs are valid programs by construction: a rejection is itself a failure of the property's "for every program"
         jm = {j[0]: j for j in jobs}
